@@ -43,7 +43,7 @@ type c09Universe struct {
 
 func c09Build() c09Universe {
 	var u c09Universe
-	u.nums = jl(`-1.5`, `-1`, `-0.0`, `0`, `0.5`, `1`, `2`, `1e3`, `2.5`, `-2.5`, `1e-7`, `123456789012`)
+	u.nums = jl(`-1.5`, `-1`, `-0.0`, `0`, `0.5`, `1`, `2`, `1e3`, `2.5`, `-2.5`, `1e-7`, `123456789012`, `16777217`, `9007199254740993`, `9223372036854775808`, `1e19`, `-1e19`, `18446744073709551616`, `1e20`, `1e21`, `1e300`, `5e-324`)
 	u.strs = jl(`""`, `"a"`, `"b"`, `"ab"`, `"ba"`, `"B"`, `"é"`, `"e\u0301"`, `"😀a"`, `"a😀"`, `"abcab"`, `"zé😀"`)
 	u.numStrs = jl(`"10"`, `"1e2"`, `"-0"`, `" 1"`, `"1 "`, `"+1"`, `".5"`, `"1."`, `"0x10"`, `"0x1p-2"`, `"1_0"`, `"inf"`, `"-inf"`, `"nan"`, `"NaN"`, `"Infinity"`, `"1e999"`, `"-1e999"`,
 		`"-1.5E-2"`, `"01"`, `"1e"`, `"--1"`, `"1.5"`, `"0"`, `"-"`, `""`, `"1e+2"`, `"0.0"`, `"1E5"`, `"\u0663"`, `"1,5"`, `"true"`, `"null"`)
@@ -218,7 +218,7 @@ func c09Tree(c c09Case, fromDoc bool) (*gen.Expr, interface{}) {
 }
 
 func c09(r *mon.Run) {
-	r.Rule = "per function, exhaustive over a typed universe sized to its signature: 12 numbers (incl. -0, fractions, 1e3), 12 strings (empty, ASCII, precomposed and decomposed é, astral), 33 number-like strings for to_number (JSON numbers and near misses: +1 .5 1. 0x10 0x1p-2 1_0 inf nan Infinity 1e999 …), every array over {-1,1,2} up to length 4 and over {a,b,é,B} up to length 3 (ties, duplicates), mixed/nested arrays, every object over keys a,b,c with values 1,\"x\",null (merge with 1-3 arguments, colliding keys), " +
+	r.Rule = "per function, exhaustive over a typed universe sized to its signature: 24 numbers (incl. -0, fractions, integers around 2^24, 2^53, 2^63, 2^64, 1e21, the float range ends), 12 strings (empty, ASCII, precomposed and decomposed é, astral), 33 number-like strings for to_number (JSON numbers and near misses: +1 .5 1. 0x10 0x1p-2 1_0 inf nan Infinity 1e999 …), every array over {-1,1,2} up to length 4 and over {a,b,é,B} up to length 3 (ties, duplicates), mixed/nested arrays, every object over keys a,b,c with values 1,\"x\",null (merge with 1-3 arguments, colliding keys), " +
 		"every array of up to 4 objects with tied / distinct number or string keys for sort_by, max_by, min_by, map (elements tagged with their index so stability and first-extremum are observable); arguments written as literals and read from the document; each call also nested in seeded random contexts. " +
 		"Oracle: ref function semantics (relational for to_string: any JSON text that decodes back; keys/values: any permutation). Non-trivial = distinct (expression, document) with a non-error expected result; per-function counts in the evidence."
 	r.Exhaustive = true
